@@ -220,11 +220,13 @@ PROPS = {
         'technique': 'Lean 4 theorems about the sizing arithmetic + exact-mode correspondence of constructor dimensions + statistical test (one-sided bound) of the observed error frequencies',
     },
     'C16': {
-        'lean_modules': ['C16'],
-        'required_theorems': ['C16_bloom', 'C16_cms', 'C16_hll', 'C16_bloom_not_lost', 'C16_cuckoo_counterexample', 'C16_topk_counterexample'],
+        'lean_modules': ['C16', 'C16Merge'],
+        'required_theorems': ['C16_bloom', 'C16_cms', 'C16_hll', 'C16_bloom_not_lost', 'C16_cuckoo_counterexample', 'C16_topk_counterexample',
+                              'C16_cms_with_merge', 'C16_hll_with_merge', 'C16_cms_merge_not_lost', 'C16_cms_nonatomic_merge_loses_update'],
         'suites': ['redisconc'],
         'level': 'proof',
         'explanation': 'Lean: at Redis-command granularity a Bloom insert is k single-bit steps and a Count-Min / HyperLogLog update is one script step; these steps commute (and are idempotent for bits), so EVERY interleaving of any number of clients ends in the state of the sequential application in any order. '
+                       'Props/C16Merge: the same with whole-Merge steps in the alphabet (Count-Min cell-wise sum, HyperLogLog register-wise max, the source being a value): any interleaving of updates and merges = sequential application, every cell = initial + updates that hit it + source cells; a client-side read/add/write-back merge is NOT such a step and loses an update (counterexample by decide). '
                        'For cuckoo and Top-K the multi-command programs are modelled and an interleaving that loses an acknowledged insert / empties the tracked set is exhibited by `decide` (finding D21). '
                        'Suite `redisconc`: a go-redis hook (build tag verif) records the command trace of each update (must be SETBITs only / exactly one script) and a seeded scheduler interleaves 2-4 clients command by command (shared and re-attached handles); final state vs sequential application; the two counterexample schedules are replayed on the implementation on every run.',
         'assumptions': ['Redis executes each command and each Lua script atomically', 'connection-pool ordering and network faults are not modelled',
